@@ -6,6 +6,7 @@ import Goloop.Base.Proto
 import Goloop.Base.Sha3
 import Goloop.Model.C12Glue
 import Goloop.Model.C13
+import Goloop.Model.C13Data
 namespace Goloop.Driver.C13
 open Goloop Goloop.C13
 
@@ -26,7 +27,8 @@ def txVerdict (js : Bytes) : String :=
   | some tx =>
     let d := tx.d
     let sig : Option Bytes := if d.signature.isEmpty then none else parseSignature d.signature
-    if txVerify Secp.recoverCompact sha3_256 d.value d.stepLimit true sig
+    if txVerify Secp.recoverCompact sha3_256 d.value d.stepLimit
+        (dataOk d.dataType d.data d.value) sig
         (C12.txID C12.Glue.env tx) d.from_ then "verified" else "rejected"
 
 def step (s : Unit) (toks : List String) : Unit × String :=
